@@ -54,6 +54,40 @@ mod entry;
 mod structs;
 mod wgsl;
 
+/// Verification hooks (compiled only with `--cfg wgsl_to_wgpu_verif`): per-thread visit counters
+/// for the recursive traversals, read by the harness in /verif.
+#[cfg(wgsl_to_wgpu_verif)]
+pub mod verif_hooks {
+    use std::cell::Cell;
+    thread_local! {
+        static STAGE_FN_VISITS: Cell<u64> = const { Cell::new(0) };
+        static STAGE_STMT_VISITS: Cell<u64> = const { Cell::new(0) };
+        static TYPE_VISITS: Cell<u64> = const { Cell::new(0) };
+    }
+    pub fn reset() {
+        STAGE_FN_VISITS.with(|c| c.set(0));
+        STAGE_STMT_VISITS.with(|c| c.set(0));
+        TYPE_VISITS.with(|c| c.set(0));
+    }
+    pub fn tick_stage_fn() {
+        STAGE_FN_VISITS.with(|c| c.set(c.get() + 1));
+    }
+    pub fn tick_stage_stmt() {
+        STAGE_STMT_VISITS.with(|c| c.set(c.get() + 1));
+    }
+    pub fn tick_type() {
+        TYPE_VISITS.with(|c| c.set(c.get() + 1));
+    }
+    /// (update_stages calls, statements visited by update_stages_blocks, add_types_recursive calls)
+    pub fn read() -> (u64, u64, u64) {
+        (
+            STAGE_FN_VISITS.with(|c| c.get()),
+            STAGE_STMT_VISITS.with(|c| c.get()),
+            TYPE_VISITS.with(|c| c.get()),
+        )
+    }
+}
+
 pub use naga::valid::Capabilities as WgslCapabilities;
 
 /// Errors while generating Rust source for a WGSL shader module.
